@@ -455,3 +455,36 @@ func RunDiff[C any](t *testing.T, gen func(*rapid.T) C, exec func(C) (out []byte
 		record(test, c, Result{Classes: cls, NonTrivial: nt})
 	})
 }
+
+// ---- native coverage-guided fuzzing (thorough tier) ----
+
+// Fuzz exposes a rapid property as a Go native fuzz target: the fuzzer's byte
+// string is rapid's choice sequence (rapid.MakeFuzz), so coverage feedback
+// steers the same generator and the same oracle.  A failing input is dumped
+// as a replay file exactly as in Run (and Go saves the crasher under
+// testdata/fuzz in the scratch cwd).
+func Fuzz[C any](f *testing.F, gen func(*rapid.T) C, check func(C) Result) {
+	test := f.Name()
+	for i := uint64(0); i < 24; i++ {
+		f.Add(Expand(i*7919+1, 64+int(i)*40))
+	}
+	f.Add([]byte{})
+	n := 0
+	f.Fuzz(rapid.MakeFuzz(func(rt *rapid.T) {
+		c := gen(rt)
+		res := safeCheck(check, c)
+		if res.Viol != nil && isKnown(res.Viol.Sig) {
+			res.Viol = nil
+		}
+		if res.Viol != nil {
+			path := dumpCase(test, c, res.Viol)
+			fmt.Printf("VERIF-VIOLATION test=%s sig=%s replay=%s detail=%s\n", test, res.Viol.Sig, path, oneLine(res.Viol.Detail))
+			rt.Fatalf("violation: %s: %s", res.Viol.Sig, res.Viol.Detail)
+		}
+		record(test, c, res)
+		n++
+		if n%2000 == 0 {
+			flush(test)
+		}
+	}))
+}
